@@ -1025,7 +1025,7 @@ pub fn packet_strategy() -> BoxedStrategy<PacketSpec> {
                 4 => prop_oneof![Just(104u16), Just(168u16), 90u16..180].prop_map(|len| EfSpec::Placeholder { len }),
                 1 => ef_strategy(true),
             ],
-            0..10,
+            0..12,
         ),
         any::<u8>(),
     )
@@ -1036,6 +1036,10 @@ pub fn packet_strategy() -> BoxedStrategy<PacketSpec> {
             }
             if order % 7 == 0 {
                 v.remove(0);
+            }
+            if order % 4 == 1 {
+                // no unique identifier at all: every field in front of the authenticator is a cookie or placeholder
+                v.retain(|e| !matches!(e, EfSpec::Uid(_)));
             }
             v.append(&mut rest);
             v
